@@ -32,7 +32,7 @@ type session struct {
 	Pred    pred     `json:"pred"`
 	BP      bool     `json:"backpressure"`
 	NBefore int      `json:"n_before"`
-	Ops     []string `json:"ops"`    // `add:i:v` `upd:i:v` `ups:i:v` `del:i`, fences not included
+	Ops     []string `json:"ops"`    // `add:i:v` `upd:i:v` `ups:i:v` `del:i` `delc:i:v:k` (see applyOp), fences not included
 	Bursts  []int    `json:"bursts"` // sizes; sum = len(Ops)-NBefore; first burst may be 0 (seed only)
 	// Mask: "" | "keep1" | "keep2" — a read mask on two-field messages (values are two-character tokens)
 	// keeping only the first resp. second field; the predicate still ranges over the full stored values
@@ -157,10 +157,39 @@ func applyOp(c *resource.Collection, op string) error {
 			}
 			return nil
 		}))
+	case "addc", "updc", "upsc":
+		// Add / Update / Update(WithCreateIfAbsent) of q[1] to q[2] whose check callback (run by the change
+		// function, no lock held) first upserts the item itself to q[3]
+		var wopts []resource.WriteOption
+		switch q[0] {
+		case "addc":
+			wopts = append(wopts, resource.WithExpectAbsent(), resource.WithCreateIfAbsent())
+		case "upsc":
+			wopts = append(wopts, resource.WithCreateIfAbsent())
+		}
+		wopts = append(wopts, resource.WithExpectedCheck(func(proto.Message) error {
+			_, _ = c.Update(q[1], msgOf(q[3]), resource.WithCreateIfAbsent())
+			return nil
+		}))
+		_, err = c.Update(q[1], msgOf(q[2]), wopts...)
+	case "delv":
+		_, err = c.Delete(q[1], resource.WithExpectedValue(msgOf(q[2])))
+	case "dela":
+		_, err = c.Delete(q[1], resource.WithAllowMissing(true))
 	default:
 		panic("bad op " + op)
 	}
 	return err
+}
+
+// isOptionDelete: a Delete with options; the model's answer for it never says `fail` (its result is
+// judged by the monitor against the plain-map spec, the answer lists what is delivered).
+func isOptionDelete(op string) bool {
+	switch strings.SplitN(op, ":", 2)[0] {
+	case "delc", "delv", "dela", "addc", "updc", "upsc": // (the re-entrant writes too)
+		return true
+	}
+	return false
 }
 
 // listWithInclude calls the real List(WithInclude p) and re-attaches ids through a recording wrapper
@@ -402,6 +431,53 @@ func (sh shadow) apply(op string) (ok bool, evs []pubEvent) {
 	case "del":
 		if !present {
 			return false, nil
+		}
+		delete(sh, id)
+		return true, []pubEvent{{id, "REMOVE", cur, "-"}}
+	case "addc", "updc", "upsc":
+		// spec of a write whose callback upserts the item first: the call reads (an absent item reads as the
+		// empty message when it may be created), the callback's write happens, and the call goes through iff
+		// what is stored then still reads the same BY VALUE; its event is an ADD iff nothing is stored then
+		create, expectAbsent := q[0] != "updc", q[0] == "addc"
+		read := func() (string, bool) {
+			cur, present := sh[id]
+			switch {
+			case present && expectAbsent, !present && !create:
+				return "", false
+			case present:
+				return cur, true
+			}
+			return emptyOf(q[2]), true
+		}
+		rv, ok := read()
+		if !ok {
+			return false, nil
+		}
+		// the callback: upsert(id, q[3])
+		if cur, present := sh[id]; present {
+			evs = append(evs, pubEvent{id, "UPDATE", cur, q[3]})
+		} else {
+			evs = append(evs, pubEvent{id, "ADD", "-", q[3]})
+		}
+		sh[id] = q[3]
+		av, ok := read()
+		if !ok || av != rv {
+			return false, evs
+		}
+		evs = append(evs, pubEvent{id, "UPDATE", sh[id], q[2]})
+		sh[id] = q[2]
+		return true, evs
+	case "delv":
+		// Delete(WithExpectedValue(w)): deletes iff the stored value is w
+		if !present || cur != q[2] {
+			return false, nil
+		}
+		delete(sh, id)
+		return true, []pubEvent{{id, "REMOVE", cur, "-"}}
+	case "dela":
+		// Delete(WithAllowMissing(true)): a missing item is not an error
+		if !present {
+			return true, nil
 		}
 		delete(sh, id)
 		return true, []pubEvent{{id, "REMOVE", cur, "-"}}
@@ -747,19 +823,36 @@ func genOps(r *rand.Rand, ids []string, vals2 []string, n int) []string {
 		case x < 1: // failing writes now and then
 			if present {
 				op = "add:" + id + ":" + v
-			} else if r.Intn(2) == 0 {
+			} else if y := r.Intn(5); y < 2 {
 				op = "upd:" + id + ":" + v
+			} else if y == 2 {
+				op = "dela:" + id // absent and allowed to be
 			} else {
 				op = "del:" + id
 			}
 		case !present:
-			if r.Intn(3) == 0 {
+			switch y := r.Intn(12); {
+			case y < 4:
 				op = "ups:" + id + ":" + v
-			} else {
+			case y < 5:
+				// creating an absent item while the callback creates it holding the empty message / a value
+				w := emptyOf(v)
+				if r.Intn(3) == 0 {
+					w = vals2[r.Intn(len(vals2))]
+				}
+				op = []string{"upsc", "addc"}[r.Intn(2)] + ":" + id + ":" + v + ":" + w
+			default:
 				op = "add:" + id + ":" + v
 			}
 		case x < 5:
-			op = "del:" + id
+			switch r.Intn(8) {
+			case 0:
+				op = "delv:" + id + ":" + v // WithExpectedValue: deletes iff the stored value is v
+			case 1:
+				op = "dela:" + id // WithAllowMissing
+			default:
+				op = "del:" + id
+			}
 		case x < 6:
 			// a delete that is interfered with: its check callback writes to the item itself k times
 			// (k = 5 exhausts the attempts: the delete fails after five published updates); now and then the
@@ -770,8 +863,16 @@ func genOps(r *rand.Rand, ids []string, vals2 []string, n int) []string {
 				w = "-"
 			}
 			op = fmt.Sprintf("delc:%s:%s:%d", id, w, k)
-		case x < 9:
+		case x < 8:
 			op = "ups:" + id + ":" + v
+		case x < 9:
+			// a write whose check callback upserts the item itself first (to w): it aborts unless w reads like
+			// what the write read - the same value, or the empty message for an item it is about to create
+			w := vals2[r.Intn(len(vals2))]
+			if r.Intn(2) == 0 {
+				w = emptyOf(v)
+			}
+			op = []string{"updc", "upsc", "upsc", "addc"}[r.Intn(4)] + ":" + id + ":" + v + ":" + w
 		default:
 			op = "upd:" + id + ":" + v
 		}
@@ -801,8 +902,10 @@ func genSession(r *rand.Rand, bp bool, small bool) session {
 		// the full values) may depend on the stripped field, the kept field, or both
 		vals, mask = valsWide, []string{"keep1", "keep2"}[r.Intn(2)]
 	}
-	p := pred{Ids: ids, Vals: vals}
-	bits := uint(len(ids) * (len(vals) + 1))
+	// the truth table also ranges over the empty message (an item a re-entrant write creates may hold it)
+	pvals := append(append([]string{}, vals...), emptyOf(vals[0]))
+	p := pred{Ids: ids, Vals: pvals}
+	bits := uint(len(ids) * (len(pvals) + 1))
 	p.Mask = uint64(r.Int63()) & (1<<bits - 1)
 	if r.Intn(40) == 0 {
 		p = pred{Nil: true}
@@ -908,7 +1011,7 @@ func (s session) codeAnswerBP(obs []burstObs) string {
 				// several, also when it fails in the end)
 				ev = strings.Join(events[:len(events)-1], ";")
 				events = events[len(events)-1:]
-			} else if oi < len(b.Results) && b.Results[oi] == "fail" && !strings.HasPrefix(b.Ops[oi], "delc:") {
+			} else if oi < len(b.Results) && b.Results[oi] == "fail" && !isOptionDelete(b.Ops[oi]) {
 				// (a re-entrant delete may fail after publishing events that include drops: its result is
 				// judged by the monitor, the model's answer only lists what is delivered)
 				ev = "fail"
@@ -960,7 +1063,7 @@ func modelAnswerBP(ans string, obs []burstObs) string {
 
 func runPull(f lib.Flags, res *lib.Result, drv *lib.Driver) {
 	tieBP := res.Tie("pull-backpressure", "K1",
-		"random write histories (Add/Update/Update+CreateIfAbsent/Delete incl. failing writes) over 2-3 ids x 2 values on a real Collection, subscription after a random prefix, Pull(WithInclude p, WithBackpressure(true)) with p a random truth table over (id, {absent} + values); a third of the sessions use two-field messages (4 values) under a read mask that strips one of the fields, the truth table ranging over the full stored values (so it may depend on the stripped field, the kept one, or both) — model: include on the unmasked values, then the mask's projection on seeds, events and List; a quarter of the sessions configure an equivalence on the collection (equal values / equal first field, judged on the masked old/new after include) and a fifth subscribe with WithUpdatesOnly (no seed); after each write a fence write, then the delivered events and List(WithInclude p) are compared with the model's `pull` answer; non-trivial = predicate not nil; distinct = (predicate, history)")
+		"random write histories (Add/Update/Update+CreateIfAbsent/Delete incl. failing writes) over 2-3 ids x 2 values on a real Collection, subscription after a random prefix, Pull(WithInclude p, WithBackpressure(true)) with p a random truth table over (id, {absent} + values); a third of the sessions use two-field messages (4 values) under a read mask that strips one of the fields, the truth table ranging over the full stored values (so it may depend on the stripped field, the kept one, or both) — model: include on the unmasked values, then the mask's projection on seeds, events and List; a quarter of the sessions configure an equivalence on the collection (equal values / equal first field, judged on the masked old/new after include) and a fifth subscribe with WithUpdatesOnly (no seed); one write in twenty is a Delete whose WithExpectedCheck callback writes to the item itself on its first k in {0,1,2,5} invocations (Update, or Delete), so that Delete goes round its retry loop and publishes several events (k = 5 exhausts the attempts); one session in ninety has its first write after the subscription started by the include predicate itself at its first evaluation inside Pull (a writer concurrent with the computation of the seed; the predicate waits 20 ms for it); after each write a fence write, then the delivered events and List(WithInclude p) are compared with the model's `pull` answer; non-trivial = predicate not nil; distinct = (predicate, history)")
 	tieLossy := res.Tie("pull-lossy", "K1",
 		"same histories with WithBackpressure(false): writes in bursts of 1-4 with nothing read meanwhile (the real mergeCollectionExcess merges), then drained to a fence; the delivered stream of each burst must be one of the streams the model produces over all recv/emit patterns (acceptor); model side = the delivered stream if accepted, else the model's set")
 	mon := res.Monitor("pull-fold", "on the same sessions, independent of the model: seed = filtered list; with backpressure the delivered stream is exactly the filtered edit script per write (in-in delivered as is, out-in ADD, in-out REMOVE, out-out nothing); every delivered event is well formed at the subscriber's view; after every burst fold(delivered) = filtered shadow map = List(WithInclude p); distinct = (predicate, burst)")
